@@ -609,7 +609,7 @@ func TestC07(t *testing.T) {
 	}
 	h.Exhaustive(fmt.Sprintf("every ordered pair of %d operations x %d relations (x 2 backends in the thorough tier)", len(ops), len(ccRelations)))
 
-	rapidCases(h, "workload", env.PerShard(env.Pick(48, 2000)), func(rt *rapid.T) workloadCase {
+	rapidCases(h, "workload", env.PerShard(env.Pick(48, 24000)), func(rt *rapid.T) workloadCase {
 		return workloadCase{Seed: rapid.Uint64Range(1, 1<<40).Draw(rt, "seed"), Conns: rapid.IntRange(1, 4).Draw(rt, "conns"),
 			Workers: rapid.IntRange(4, 32).Draw(rt, "workers"), Ops: rapid.IntRange(10, 60).Draw(rt, "ops"),
 			Native: rapid.Bool().Draw(rt, "native"), Renames: rapid.Bool().Draw(rt, "renames")}
